@@ -57,7 +57,7 @@ Definition failure := (nat * Z)%type.
 (* ---------------------------------------------------------------------------------------------- *)
 (* C01: in order, exactly once.  `lb` = lowest number that may still be handed over in this epoch. *)
 Definition consumes (v : verdict) : bool :=
-  match v with VReject 9 _ _ | VReject 10 _ _ => false | _ => true end.
+  match v with VReject r _ _ => negb ((r =? 9) || (r =? 10)) | _ => true end.
 
 Fixpoint c01_scan_cbs (lb : Z) (l : list cb) : option Z :=
   match l with
